@@ -213,8 +213,8 @@ fn command_line(rng: &mut Rng) -> (String, bool) {
 }
 
 const PROGRAMS: &[(&str, &str)] = &[
-    ("p1.asm", "#! mrasm\n CLR R0\nloop: INC R0\n ST (0xFF), R0\n LD R1, (0xFC)\n ST (0xFE), R1\n JR loop\n"),
-    ("p2.asm", "#! mrasm\n JR main\n JR isr\nmain: LDSP 0xEF\n BITS (0xF9), 1\n EI\n CLR R0\nloop: INC R0\n ST (0xFE), R0\n CMP R0, 9\n JZS halt\n JR loop\nhalt: STOP\n JR loop\nisr: ST (0xFF), R0\n RETI\n"),
+    ("p1.asm", "#! mrasm\n CLR R0\nloop:\n INC R0\n ST (0xFF), R0\n LD R1, (0xFC)\n ST (0xFE), R1\n JR loop\n"),
+    ("p2.asm", "#! mrasm\n JR main\n JR isr\nmain:\n LDSP 0xEF\n BITS (0xF9), 1\n EI\n CLR R0\nloop:\n INC R0\n ST (0xFE), R0\n CMP R0, 9\n JZS halt\n JR loop\nhalt:\n STOP\n JR loop\nisr:\n ST (0xFF), R0\n RETI\n"),
     ("bad.asm", "#! mrasm\n FOO R1\n"),
     ("é.asm", "#! mrasm\n*STACKSIZE 32\n LD R0, (0xF0)\n ST (0xFF), R0\n STOP\n"),
 ];
@@ -413,6 +413,40 @@ fn build_script(rng: &mut Rng, thorough: bool, out: &mut Out) -> Vec<Op> {
             }
             if rng.chance(1, 12) {
                 draw_sizes(rng, &mut ops, true, 1);
+            }
+        }
+    }
+    // (E2) long sessions: well over a hundred submitted lines in ONE session (every line must have its own effect,
+    // however long the history has become), with history navigation in between
+    let n_long = if thorough { 12 } else { 3 };
+    for s in 0..n_long {
+        ops.push(op("tnew".into()));
+        let len = 70 + rng.below(if thorough { 400 } else { 90 });
+        for i in 0..len {
+            let v = (i * 7 + s * 13) % 256;
+            let t = match i % 5 {
+                0 => format!("FC = {}", v),
+                1 => format!("fd = 0x{:02X}", v),
+                2 => format!("set IRG = {}", v),
+                3 => format!("FE = 0b{:08b}", v),
+                _ => "this line is rejected".to_string(),
+            };
+            submit(&mut ops, &t);
+            if i % 5 == 4 {
+                // dismiss the notification
+                ops.push(op("key esc -".into()));
+                ops.push(op("tdump".into()));
+            }
+            if rng.chance(1, 15) {
+                for _ in 0..1 + rng.below(4) {
+                    ops.push(op("key up -".into()));
+                }
+                ops.push(op("tdump".into()));
+                for _ in 0..rng.below(3) {
+                    ops.push(op("key down -".into()));
+                }
+                ops.push(op("key enter -".into()));
+                ops.push(op("tdump".into()));
             }
         }
     }
